@@ -168,6 +168,10 @@ class CallsMixin:
             return self.call_argparse(f, args, kwargs, fr)
         if isinstance(f, Closure):
             return self.call_closure(f, args, kwargs, fr, awaited)
+        import typing as _typing
+
+        if isinstance(f, _typing.NewType) and len(args) == 1 and not kwargs:
+            return args[0]  # typing.NewType: the identity function at run time
         if isinstance(f, SObj):
             model = self.model_for(f.cls)
             if model is not None and hasattr(model, "m___call__"):
